@@ -17,6 +17,7 @@ import (
 	common2 "github.com/elastos/Elastos.ELA/core/types/common"
 	"github.com/elastos/Elastos.ELA/core/types/interfaces"
 
+	"verifharness/ctxcheck"
 	"verifharness/elaenv"
 	"verifharness/lib"
 )
@@ -156,6 +157,22 @@ func main() {
 			rm[in] = common2.Output{ProgramHash: r, Value: 1}
 		}
 		return callReal(st, tx, rm, es, refs, outs, h)
+	}
+
+	// ---------------- wiring of the helper inside ContextCheck (read from the source under test)
+	if m, err := ctxcheck.Load(run.Repo, "ContextCheck"); err != nil {
+		st.Fail("c32:contextcheck-wiring", "cannot analyse DefaultChecker.ContextCheck: "+err.Error(), nil)
+	} else {
+		for _, p := range []string{
+			m.OnlyReceivers("DefaultChecker", "CoinBaseTransaction"),
+			m.Expect("checkFrozenAddresses", []string{"t.parameters.Transaction", "references", "t.parameters.BlockHeight",
+				"t.parameters.Config.FrozenAddresses"},
+				[]string{"GetTxReference"}, []string{"SpecialContextCheck", "CheckTransactionFee", "checkTransactionSignature"}),
+		} {
+			if p != "" {
+				st.Fail("c32:contextcheck-wiring", "ContextCheck no longer applies the frozen-address check to every non-coinbase transaction before the type-specific checks: "+p, nil)
+			}
+		}
 	}
 
 	// ---------------- exhaustive position sweeps
